@@ -1990,19 +1990,15 @@ def k_gen(u):
             fn = u.nm("Body")
             L.open("func %s[T %s](p0, p1 T) (res T) {" % (fn, Num))
             f = mkfill(u, L, "T", None, depth=2, budget=12)
-            # the filler treats T as an integer kind with conservative literals
-            BITS["T"] = 8
-            try:
-                f.add("p0", "T")
-                f.add("p1", "T")
-                f.add("res", "T")
-                f.fuel_decl()
-                f.lit = lambda tt, _r=r: _r.choice([0, 1, 2, 3, 5, 7, 10, 100])
-                f.no_range = True
-                f.stmts(r.randint(3, 6), 2)
-                L("res += %s" % f.ie("T", 2))
-            finally:
-                del BITS["T"]
+            # the filler treats T as an integer kind with conservative literals (BITS["T"] in c01_core)
+            f.add("p0", "T")
+            f.add("p1", "T")
+            f.add("res", "T")
+            f.fuel_decl()
+            f.lit = lambda tt, _r=r: _r.choice([0, 1, 2, 3, 5, 7, 10, 100])
+            f.no_range = True
+            f.stmts(r.randint(3, 6), 2)
+            L("res += %s" % f.ie("T", 2))
             L("return")
             L.close()
             L()
